@@ -22,4 +22,4 @@ CONSTANTS
 SYMMETRY ThreadSym
 VIEW MCView
 INVARIANTS ConcTypeOK IterSnapshot ReadExplained CommitComplete
-PROPERTIES OnlyLinWrites
+PROPERTIES OnlyLinWrites ReadResAgrees
